@@ -10,7 +10,7 @@ TECH_B = ("contracts on the real code checked natively on enumerated/small-scope
 # proved: what the discharged obligations establish (None = nothing deductive yet);  bounded: what only the bounded native side covers
 C = {
  "C01": ("flow contracts on the shipped llm_flows.co (parser output): `process user input` creates UserMessage only after ALL configured input rails ran, in the "
-         "configured order, once each (or none when the category is disabled); the text of UserMessage is $user_message after the last rail; any number of rails; the shipped library rail `self check input` (2.x) finishes only when the check allowed the input - a rejected input ends in `abort` with rails exceptions on or off",
+         "configured order, once each (or none when the category is disabled); the text of UserMessage is $user_message after the last rail; any number of rails; the shipped library rails `self check input`, `content safety check input`, `llama guard check input`, `jailbreak detection heuristics` (2.x) finish only when their check let the input through - a rejected input ends in `abort` with rails exceptions on or off",
          "input rails gating through the real LLMRails (Colang 1.0 general/passthrough/dialog, Colang 2.x guardrails library): order, stop on reject, "
                "no LLM call after reject, rewritten text in every later prompt; multi-turn", "A-COLANG: operational reading of the Colang 1.0 elements; cross-flow event dispatch, history replay, prompt construction and the LLMRails driver are "
          "not verified (bounded only); Colang 2.x guardrails library bounded only"),
@@ -18,7 +18,7 @@ C = {
          "(unless skipped / disabled), script == $bot_message after the last rail, and $skip_output_rails is false on EVERY completion of the flow", "output rails gating through the real LLMRails, multi-turn (3-5 turns), Colang 1.0 modes and Colang 2.x guardrails library: every LLM-generated "
                "bot message passes all rails in order, rejected text never returned, later turns still checked", "FakeLLM, scripted rail actions"),
  "C03": ("ActionDispatcher.execute_action: whatever the registered action does (unknown code that may raise any Exception at its call, in its constructor, when "
-         "awaited) only the forwarded LLMCallException escapes and the result is (r,'success') or (None,'failed'); the shipped library rail `self check output` (2.x) finishes only when the check allowed the output (fix f64058b); RuntimeV1_0._process_start_action emits the ContextUpdate of a rail action iff at least one reported key differs from the context (block contract)",
+         "awaited) only the forwarded LLMCallException escapes and the result is (r,'success') or (None,'failed'); the shipped library rails `self check output` (fix f64058b), `content safety check output`, `llama guard check output`, `patronus lynx check output hallucination` (2.x) finish only when their check let the output through; RuntimeV1_0._process_start_action emits the ContextUpdate of a rail action iff at least one reported key differs from the context (block contract)",
          "fault injection at every action call index (singles and pairs) through the real LLMRails in both Colang versions: generate returns, reply is refusal / "
          "internal error, next turn has all rails active", "inspect predicates, Chain/Runnable methods and logging modelled as unknown code / uninterpreted"),
  "C04": ("_compute_arguments_dict_matching_score returns a positive score exactly when the statement's recursive partial-match predicate holds, and a score in (0,1] "
